@@ -1,5 +1,561 @@
-import Robust.Irc.Inv
+import Robust.Irc.Proofs.PrivHistB
+/-!
+# C13 — privileged effects require the privilege
+
+For every privileged command the *refusal frame*: if the acting session lacks the privilege, the
+handler (when it returns normally) leaves the replicated state exactly as it was and addresses
+every message it emits to the acting session only (`Refused c c' sid`:
+`c'.st = c.st ∧ ∃ extra, c'.out = c.out ++ extra ∧ ∀ o ∈ extra, o.rcpt = [sid.id]`).
+
+* channel operator (`chanOpOf st nick lc`): KICK, INVITE into `+i`, TOPIC on `+t`, MODE (also IRC operators);
+* on the channel: TOPIC set/clear/query;
+* IRC operator (`s.operator`): KILL, GLINE, PRIVMSG/NOTICE to `$…`;
+* OPER sets the flag only for a `(name, password)` listed in `Config.IRC.Operators`;
+  SERVER promotes the session only if `s.pass = "services=" ++ pw` for a configured `pw`
+  (otherwise `ERROR :Invalid password`, the session stays open and unchanged);
+  services handlers are dispatched only for sessions with `s.server = true`;
+* JOIN of an existing channel: admission condition `joinAllowed`, one-shot invitations;
+* history: chanop flags of an existing channel never appear through entries of sessions that are
+  neither chanop of it, nor IRC operator, nor a services link (`C13_chanop_origin_partial`).
+
+Model notes.  The captcha path of JOIN (`+x` without invitation) is `.declined` in the model, so
+for `+x` the theorems say "an invitation is required".  All theorems are conditional on the
+handler returning `.ok` (C06 shows it never panics on invariant states).
+Every theorem is followed by a non-vacuity example on the concrete state `Ex.st0`.
+-/
 namespace Robust.Props.C13
 open Robust Robust.Irc
-theorem C13_placeholder_init : invB ({} : St) = true := by decide
+
+/-! ## the concrete state of the non-vacuity examples -/
+namespace Ex
+def alice : Session := { id := ⟨1, 0⟩, nick := "alice", username := "a", loggedIn := true, channels := ["#c"], ircPrefix := ⟨"alice", "a", "robust/0x1"⟩ }
+def bob : Session := { id := ⟨2, 0⟩, nick := "bob", username := "b", loggedIn := true, channels := ["#c"], ircPrefix := ⟨"bob", "b", "robust/0x2"⟩ }
+/-- carol is not on `#c`; she gave `PASS services=wrong` -/
+def carol : Session := { id := ⟨3, 0⟩, nick := "carol", username := "c", loggedIn := true, ircPrefix := ⟨"carol", "c", "robust/0x3"⟩, pass := "services=wrong" }
+/-- dave has just connected and gave `PASS services=sekrit` -/
+def dave : Session := { id := ⟨4, 0⟩, pass := "services=sekrit" }
+/-- `#c` (`+nti`): alice is channel operator, bob a plain member -/
+def chanC : Channel := { name := "#c", nicks := [("alice", { chanop := true }), ("bob", {})], modes := ['n', 't', 'i'] }
+def cfg : Config := { operators := [("root", "pw")], services := ["sekrit"] }
+def st0 : St := { sessions := [(⟨1, 0⟩, alice), (⟨2, 0⟩, bob), (⟨3, 0⟩, carol), (⟨4, 0⟩, dave)], nicks := [("alice", ⟨1, 0⟩), ("bob", ⟨2, 0⟩), ("carol", ⟨3, 0⟩)], channels := [("#c", chanC)], config := cfg }
+def c0 : Ctx := { st := st0, msgid := 7 }
+def aliceId : Id := ⟨1, 0⟩
+def bobId : Id := ⟨2, 0⟩
+def carolId : Id := ⟨3, 0⟩
+def daveId : Id := ⟨4, 0⟩
+/-- state and recipient lists of a normal return -/
+def result (r : Res Ctx) : Option (St × List (List Nat)) :=
+  match r with
+  | .ok c => some (c.st, c.out.map Out.rcpt)
+  | _ => none
+/-- normal return, state as in `st0`, every output addressed to `who` only -/
+def unchanged (r : Res Ctx) (who : Nat) : Bool :=
+  match result r with
+  | some (st, rc) => decide (st = st0) && rc.all (· == [who])
+  | none => false
+theorem ok_of_result {r : Res Ctx} {st : St} {rc : List (List Nat)} (h : result r = some (st, rc)) :
+    ∃ c', r = .ok c' ∧ c'.st = st := by
+  cases r with
+  | ok c => simp only [result, Option.some.injEq, Prod.mk.injEq] at h; exact ⟨c, rfl, h.1⟩
+  | panic x => simp [result] at h
+  | declined x => simp [result] at h
+/-- the state satisfies the executable invariant -/
+example : invB st0 = true := by decide
+end Ex
+open Ex
+
+/-! ## 1. channel operator: KICK, INVITE, TOPIC -/
+
+/-- KICK by a session that is not a channel operator of that channel (no such channel, not a
+member, or a member without the flag): nobody is removed, nothing else changes, the only output
+is a numeric to the actor. -/
+theorem C13_kick_requires_chanop {c c' : Ctx} {sid : Id} {m : IrcMsg} {s : Session} {chn : String}
+    (hs : AMap.get c.st.sessions sid = some s) (hp0 : m.params[0]? = some chn)
+    (hnop : chanOpOf c.st s.nick (chanToLower chn) = false)
+    (hr : cmdKick c sid m = .ok c') : Refused c c' sid :=
+  cmdKick_refused hs hp0 hnop hr
+
+/-- bob (plain member) kicks alice: refused, state as before, only bob is told -/
+example : ∃ c', cmdKick c0 bobId ⟨none, "KICK", ["#c", "alice"]⟩ = .ok c' ∧ Refused c0 c' bobId :=
+  ⟨_, rfl, C13_kick_requires_chanop (c := c0) (sid := bobId) (m := ⟨none, "KICK", ["#c", "alice"]⟩) (s := bob) (chn := "#c") (by decide) (by decide) (by decide) rfl⟩
+example : unchanged (cmdKick c0 bobId ⟨none, "KICK", ["#c", "alice"]⟩) 2 = true := by decide
+/-- contrast: alice (chanop) kicks bob: bob is removed, both are told -/
+example : (result (cmdKick c0 aliceId ⟨none, "KICK", ["#c", "bob"]⟩)).map (fun r => (memberOf r.1 "bob" "#c", r.2))
+    = some (none, [[1, 2]]) := by decide
+
+/-- INVITE into an invite-only (`+i`) channel by a member without the chanop flag: no invitation is
+recorded (state unchanged), the invitee is not notified. -/
+theorem C13_invite_requires_chanop {c c' : Ctx} {sid : Id} {m : IrcMsg} {s : Session} {chn : String} {ch : Channel}
+    (hs : AMap.get c.st.sessions sid = some s) (hp1 : m.params[1]? = some chn)
+    (hch : AMap.get c.st.channels (chanToLower chn) = some ch) (hi : ch.modes.contains 'i' = true)
+    (hnop : chanOpOf c.st s.nick (chanToLower chn) = false)
+    (hr : cmdInvite c sid m = .ok c') : Refused c c' sid :=
+  cmdInvite_refused hs hp1 hch hi hnop hr
+
+example : ∃ c', cmdInvite c0 bobId ⟨none, "INVITE", ["carol", "#c"]⟩ = .ok c' ∧ Refused c0 c' bobId :=
+  ⟨_, rfl, C13_invite_requires_chanop (c := c0) (sid := bobId) (m := ⟨none, "INVITE", ["carol", "#c"]⟩) (s := bob) (chn := "#c") (ch := chanC) (by decide) (by decide) (by decide)
+    (by decide) (by decide) rfl⟩
+/-- contrast: alice's INVITE records the invitation for carol -/
+example : (result (cmdInvite c0 aliceId ⟨none, "INVITE", ["carol", "#c"]⟩)).map
+    (fun r => (AMap.get r.1.sessions carolId).map (·.invitedTo)) = some (some ["#c"]) := by decide
+
+/-- INVITE by a session that is not on the channel (whatever the channel modes): refused. -/
+theorem C13_invite_requires_membership {c c' : Ctx} {sid : Id} {m : IrcMsg} {s : Session} {chn : String}
+    (hs : AMap.get c.st.sessions sid = some s) (hp1 : m.params[1]? = some chn)
+    (hnot : memberOf c.st s.nick (chanToLower chn) = none)
+    (hr : cmdInvite c sid m = .ok c') : Refused c c' sid :=
+  cmdInvite_refused_notOn hs hp1 hnot hr
+
+example : ∃ c', cmdInvite c0 carolId ⟨none, "INVITE", ["carol", "#c"]⟩ = .ok c' ∧ Refused c0 c' carolId :=
+  ⟨_, rfl, C13_invite_requires_membership (c := c0) (sid := carolId) (m := ⟨none, "INVITE", ["carol", "#c"]⟩) (s := carol) (chn := "#c") (by decide) (by decide) (by decide) rfl⟩
+
+/-- TOPIC (set, clear or query) by a session that does not list the channel: nothing changes.
+(`cmdTopic` tests the session's channel list; `C13_topic_requires_membership'` is the same
+statement on the channel's member map, for states satisfying the invariant.) -/
+theorem C13_topic_requires_membership {c c' : Ctx} {sid : Id} {m : IrcMsg} {s : Session} {chn : String}
+    (hs : AMap.get c.st.sessions sid = some s) (hp0 : m.params[0]? = some chn)
+    (hnot : s.channels.contains (chanToLower chn) = false)
+    (hr : cmdTopic c sid m = .ok c') : Refused c c' sid :=
+  cmdTopic_refused_notOn hs hp0 hnot hr
+
+/-- carol is not on `#c`: neither setting nor clearing the topic has an effect -/
+example : ∃ c', cmdTopic c0 carolId ⟨none, "TOPIC", ["#c", "x"]⟩ = .ok c' ∧ Refused c0 c' carolId :=
+  ⟨_, rfl, C13_topic_requires_membership (c := c0) (sid := carolId) (m := ⟨none, "TOPIC", ["#c", "x"]⟩) (s := carol) (chn := "#c") (by decide) (by decide) (by decide) rfl⟩
+example : unchanged (cmdTopic c0 carolId ⟨none, "TOPIC", ["#c", ""]⟩) 3 = true := by decide
+
+theorem C13_topic_requires_membership' {c c' : Ctx} {sid : Id} {m : IrcMsg} {s : Session} {chn : String}
+    (hw : WInv c.st) (hs : AMap.get c.st.sessions sid = some s) (hl : s.deleted = false) (hn : s.nick ≠ "")
+    (hp0 : m.params[0]? = some chn) (hnot : memberOf c.st s.nick (chanToLower chn) = none)
+    (hr : cmdTopic c sid m = .ok c') : Refused c c' sid :=
+  cmdTopic_refused_notMember hw hs hl hn hp0 hnot hr
+
+/-- TOPIC on a `+t` channel by a session without the chanop flag: the topic is neither set nor
+cleared (a query is answered to the actor). -/
+theorem C13_topic_requires_chanop_on_t {c c' : Ctx} {sid : Id} {m : IrcMsg} {s : Session} {chn : String} {ch : Channel}
+    (hs : AMap.get c.st.sessions sid = some s) (hp0 : m.params[0]? = some chn)
+    (hch : AMap.get c.st.channels (chanToLower chn) = some ch) (ht : ch.modes.contains 't' = true)
+    (hnop : chanOpOf c.st s.nick (chanToLower chn) = false)
+    (hr : cmdTopic c sid m = .ok c') : Refused c c' sid :=
+  cmdTopic_refused_t hs hp0 hch ht hnop hr
+
+example : ∃ c', cmdTopic c0 bobId ⟨none, "TOPIC", ["#c", "new topic"]⟩ = .ok c' ∧ Refused c0 c' bobId :=
+  ⟨_, rfl, C13_topic_requires_chanop_on_t (c := c0) (sid := bobId) (m := ⟨none, "TOPIC", ["#c", "new topic"]⟩) (s := bob) (chn := "#c") (ch := chanC) (by decide) (by decide) (by decide)
+    (by decide) (by decide) rfl⟩
+example : unchanged (cmdTopic c0 bobId ⟨none, "TOPIC", ["#c", ""]⟩) 2 = true := by decide
+/-- contrast: alice sets the topic -/
+example : (result (cmdTopic c0 aliceId ⟨none, "TOPIC", ["#c", "new topic"]⟩)).map
+    (fun r => (AMap.get r.1.channels "#c").map (·.topic)) = some (some "new topic") := by decide
+
+/-! ## 2. MODE on a channel -/
+
+/-- MODE on a channel the actor is on, the actor being neither channel operator there nor IRC
+operator: the state is unchanged — modes, key, ban list, chanop flags — whatever the mode string
+(every letter of a multi-letter string, with or without parameters, `+b`/`-b` with a mask); the
+ban-list query (`+b` without mask) and the mode query are answered to the actor only. -/
+theorem C13_mode_requires_chanop_or_oper {c c' : Ctx} {sid : Id} {m : IrcMsg} {s : Session} {chn : String}
+    (hs : AMap.get c.st.sessions sid = some s) (hp0 : m.params[0]? = some chn)
+    (hon : s.channels.contains (chanToLower chn) = true)
+    (hnop : chanOpOf c.st s.nick (chanToLower chn) = false) (hno : s.operator = false)
+    (hr : cmdMode c sid m = .ok c') : Refused c c' sid :=
+  cmdMode_refused hs hp0 hon hnop hno hr
+
+/-- bob tries `+o bob`, `-t`, a ban and a key in one mode string: nothing happens -/
+example : ∃ c', cmdMode c0 bobId ⟨none, "MODE", ["#c", "+o-t+bk", "bob", "x!*@*", "key"]⟩ = .ok c' ∧ Refused c0 c' bobId :=
+  ⟨_, rfl, C13_mode_requires_chanop_or_oper (c := c0) (sid := bobId) (m := ⟨none, "MODE", ["#c", "+o-t+bk", "bob", "x!*@*", "key"]⟩) (s := bob) (chn := "#c") (by decide) (by decide) (by decide) (by decide)
+    (by decide) rfl⟩
+example : unchanged (cmdMode c0 bobId ⟨none, "MODE", ["#c", "-o+b", "alice", "alice!*@*"]⟩) 2 = true := by decide
+/-- contrast: alice's `+o bob` makes bob a channel operator -/
+example : (result (cmdMode c0 aliceId ⟨none, "MODE", ["#c", "+o", "bob"]⟩)).map (fun r => chanOpOf r.1 "bob" "#c")
+    = some true := by decide +kernel
+
+/-- … and whether or not the actor is on the channel: no channel changes at all (off the channel
+the handler treats the target as a nickname; that branch never touches a channel). -/
+theorem C13_mode_channels_unchanged {c c' : Ctx} {sid : Id} {m : IrcMsg} {s : Session} {chn : String}
+    (hs : AMap.get c.st.sessions sid = some s) (hp0 : m.params[0]? = some chn)
+    (hnop : chanOpOf c.st s.nick (chanToLower chn) = false) (hno : s.operator = false)
+    (hr : cmdMode c sid m = .ok c') : c'.st.channels = c.st.channels :=
+  cmdMode_channels_unchanged hs hp0 hnop hno hr
+
+/-- carol is not on `#c` -/
+example : ∃ c', cmdMode c0 carolId ⟨none, "MODE", ["#c", "+o", "carol"]⟩ = .ok c' ∧ c'.st.channels = c0.st.channels :=
+  ⟨_, rfl, C13_mode_channels_unchanged (c := c0) (sid := carolId) (m := ⟨none, "MODE", ["#c", "+o", "carol"]⟩) (s := carol)
+    (chn := "#c") (by decide) (by decide) (by decide) (by decide) rfl⟩
+
+/-- MODE naming something the actor is not on and that is not its own nickname, by a non-operator:
+nothing changes. -/
+theorem C13_mode_off_channel_refused {c c' : Ctx} {sid : Id} {m : IrcMsg} {s : Session} {chn : String}
+    (hs : AMap.get c.st.sessions sid = some s) (hp0 : m.params[0]? = some chn)
+    (hon : s.channels.contains (chanToLower chn) = false)
+    (hne : nickToLower chn ≠ nickToLower s.nick) (hno : s.operator = false)
+    (hr : cmdMode c sid m = .ok c') : Refused c c' sid :=
+  cmdMode_notOn_refused hs hp0 hon hne hno hr
+
+example : ∃ c', cmdMode c0 carolId ⟨none, "MODE", ["#c", "+o", "carol"]⟩ = .ok c' ∧ Refused c0 c' carolId :=
+  ⟨_, rfl, C13_mode_off_channel_refused (c := c0) (sid := carolId) (m := ⟨none, "MODE", ["#c", "+o", "carol"]⟩) (s := carol) (chn := "#c") (by decide) (by decide) (by decide) (by decide)
+    (by decide) rfl⟩
+
+/-! ## 3. IRC operator: KILL, GLINE, network-wide notices -/
+
+theorem C13_kill_requires_oper {c c' : Ctx} {sid : Id} {m : IrcMsg} {s : Session}
+    (hs : AMap.get c.st.sessions sid = some s) (hno : s.operator = false)
+    (hr : cmdKill c sid m = .ok c') : Refused c c' sid :=
+  cmdKill_refused hs hno hr
+
+example : ∃ c', cmdKill c0 bobId ⟨none, "KILL", ["alice", "bye"]⟩ = .ok c' ∧ Refused c0 c' bobId :=
+  ⟨_, rfl, C13_kill_requires_oper (c := c0) (sid := bobId) (m := ⟨none, "KILL", ["alice", "bye"]⟩) (s := bob) (by decide) (by decide) rfl⟩
+
+theorem C13_gline_requires_oper {c c' : Ctx} {sid : Id} {m : IrcMsg} {s : Session}
+    (hs : AMap.get c.st.sessions sid = some s) (hno : s.operator = false)
+    (hr : cmdGline c sid m = .ok c') : Refused c c' sid :=
+  cmdGline_refused hs hno hr
+
+example : ∃ c', cmdGline c0 bobId ⟨none, "GLINE", ["alice", "bye"]⟩ = .ok c' ∧ Refused c0 c' bobId :=
+  ⟨_, rfl, C13_gline_requires_oper (c := c0) (sid := bobId) (m := ⟨none, "GLINE", ["alice", "bye"]⟩) (s := bob) (by decide) (by decide) rfl⟩
+
+/-- PRIVMSG / NOTICE to a `$…` target by a non-operator reaches nobody but the actor (numeric 481). -/
+theorem C13_global_notice_requires_oper {c c' : Ctx} {sid : Id} {m : IrcMsg} {s : Session} {p0 : String}
+    (hs : AMap.get c.st.sessions sid = some s) (hno : s.operator = false)
+    (hp0 : m.params[0]? = some p0) (hh : hasPrefix p0 "#" = false) (hd : hasPrefix p0 "$" = true)
+    (hr : cmdPrivmsg c sid m = .ok c') : Refused c c' sid :=
+  cmdPrivmsg_dollar_refused hs hno hp0 hh hd hr
+
+example : ∃ c', cmdPrivmsg c0 bobId ⟨none, "NOTICE", ["$*", "hello all"]⟩ = .ok c' ∧ Refused c0 c' bobId :=
+  ⟨_, rfl, C13_global_notice_requires_oper (c := c0) (sid := bobId) (m := ⟨none, "NOTICE", ["$*", "hello all"]⟩) (s := bob) (p0 := "$*") (by decide) (by decide) (by decide) (by decide)
+    (by decide) rfl⟩
+
+/-! ## 4. OPER, SERVER, dispatch of services commands -/
+
+/-- OPER with a `(name, password)` pair that is not configured: nothing changes. -/
+theorem C13_oper_requires_configured_credentials {c c' : Ctx} {sid : Id} {m : IrcMsg} {s : Session}
+    {name password : String}
+    (hs : AMap.get c.st.sessions sid = some s) (hp0 : m.params[0]? = some name) (hp1 : m.params[1]? = some password)
+    (hno : operListed c.st.config name password = false)
+    (hr : cmdOper c sid m = .ok c') : Refused c c' sid :=
+  cmdOper_refused hs hp0 hp1 hno hr
+
+example : ∃ c', cmdOper c0 bobId ⟨none, "OPER", ["root", "wrong"]⟩ = .ok c' ∧ Refused c0 c' bobId :=
+  ⟨_, rfl, C13_oper_requires_configured_credentials (c := c0) (sid := bobId) (m := ⟨none, "OPER", ["root", "wrong"]⟩) (s := bob) (name := "root") (password := "wrong") (by decide)
+    (by decide) (by decide) (by decide) rfl⟩
+/-- contrast: the configured pair turns the flag on -/
+example : (result (cmdOper c0 bobId ⟨none, "OPER", ["root", "pw"]⟩)).map
+    (fun r => (AMap.get r.1.sessions bobId).map (·.operator)) = some (some true) := by decide
+
+/-- if OPER turned the actor's operator flag on, the pair was configured -/
+theorem C13_oper_flag_only_if_listed {c c' : Ctx} {sid : Id} {m : IrcMsg} {s s' : Session} {name password : String}
+    (hs : AMap.get c.st.sessions sid = some s) (hp0 : m.params[0]? = some name) (hp1 : m.params[1]? = some password)
+    (hr : cmdOper c sid m = .ok c') (hs' : AMap.get c'.st.sessions sid = some s')
+    (hbefore : s.operator = false) (hafter : s'.operator = true) :
+    operListed c.st.config name password = true := by
+  cases h : operListed c.st.config name password with
+  | true => rfl
+  | false =>
+    have := (cmdOper_refused hs hp0 hp1 h hr).st
+    rw [this, hs] at hs'
+    cases hs'
+    rw [hbefore] at hafter
+    cases hafter
+
+/-- bob's successful OPER: the hypotheses hold with `s' = bob` plus the flag, the pair is the configured one -/
+example : operListed cfg "root" "pw" = true :=
+  C13_oper_flag_only_if_listed (c := c0) (sid := bobId) (m := ⟨none, "OPER", ["root", "pw"]⟩) (s := bob)
+    (s' := { bob with operator := true, modes := ['o'] }) (c' := _) (by decide) (by decide) (by decide) rfl (by decide)
+    (by decide) (by decide)
+
+/-- SERVER from a session whose PASS is not `services=<configured password>`: `ERROR :Invalid
+password` to the actor; the session is neither promoted to a services link nor closed. -/
+theorem C13_server_requires_services_password {c c' : Ctx} {sid : Id} {m : IrcMsg} {s : Session}
+    (hs : AMap.get c.st.sessions sid = some s) (hno : servicesAuth c.st.config s.pass = false)
+    (hr : cmdServer c sid m = .ok c') : Refused c c' sid :=
+  cmdServer_refused hs hno hr
+
+example : ∃ c', cmdServer c0 carolId ⟨none, "SERVER", ["services.x", "1"]⟩ = .ok c' ∧ Refused c0 c' carolId :=
+  ⟨_, rfl, C13_server_requires_services_password (c := c0) (sid := carolId) (m := ⟨none, "SERVER", ["services.x", "1"]⟩) (s := carol) (by decide) (by decide) rfl⟩
+
+/-- if SERVER turned the actor's `server` flag on, the password was configured -/
+theorem C13_server_flag_only_if_authenticated {c c' : Ctx} {sid : Id} {m : IrcMsg} {s s' : Session}
+    (hs : AMap.get c.st.sessions sid = some s)
+    (hr : cmdServer c sid m = .ok c') (hs' : AMap.get c'.st.sessions sid = some s')
+    (hbefore : s.server = false) (hafter : s'.server = true) :
+    servicesAuth c.st.config s.pass = true := by
+  cases h : servicesAuth c.st.config s.pass with
+  | true => rfl
+  | false =>
+    have := (cmdServer_refused hs h hr).st
+    rw [this, hs] at hs'
+    cases hs'
+    rw [hbefore] at hafter
+    cases hafter
+
+/-- dave's SERVER after `PASS services=sekrit` promotes the session to a services link (on a state
+without registered users, so that the burst is empty) -/
+def Ex.cD : Ctx := { st := { sessions := [(⟨4, 0⟩, dave)], config := cfg }, msgid := 7 }
+def Ex.daveS : Session := { dave with server := true, ircPrefix := ⟨"services.x", "", ""⟩ }
+example : servicesAuth cfg dave.pass = true := by
+  obtain ⟨c', hr, hst⟩ := ok_of_result (r := cmdServer cD daveId ⟨none, "SERVER", ["services.x", "1"]⟩)
+    (st := { sessions := [(⟨4, 0⟩, daveS)], config := cfg, serverSessions := [4] }) (rc := [[4]]) (by decide +kernel)
+  exact C13_server_flag_only_if_authenticated (c := cD) (sid := daveId) (s := dave) (s' := daveS) (by decide) hr
+    (by rw [hst]; decide) (by decide) (by decide)
+
+/-- the regenerated command table: services handlers (`cmdServerInvite … cmdServerTopic`) are
+registered under `server_…` keys only -/
+theorem C13_services_handlers_under_server_keys :
+    Gen.Commands.commands.all (fun e =>
+      (startsLowerS e.1 || !isServicesHandlerName e.2.1) && (startsLowerS e.1 == hasPrefix e.1 "server_")) = true :=
+  table_services_keys
+
+/-- the dispatch for a session that is not a services link: a numeric to the actor, or a handler
+that is not a services handler (`ClientDispatched`) -/
+theorem C13_dispatch_client {c c' : Ctx} {s : Session} {m : IrcMsg} {x : String}
+    (hsv : s.server = false) (hr : dispatchStage c s m (toUpper x) = .ok c') :
+    ClientDispatched c s m (toUpper x) c' :=
+  dispatchStage_client hsv hr
+
+/-- bob types `SVSMODE` (a services command): for a client session that is an unknown command -/
+example : ∃ c', dispatchStage c0 bob ⟨none, "svsmode", ["alice", "+o"]⟩ (toUpper "svsmode") = .ok c' ∧
+    ClientDispatched c0 bob ⟨none, "svsmode", ["alice", "+o"]⟩ (toUpper "svsmode") c' ∧ c'.st = st0 := by
+  obtain ⟨c', hr, hst⟩ := ok_of_result (r := dispatchStage c0 bob ⟨none, "svsmode", ["alice", "+o"]⟩ (toUpper "svsmode"))
+    (st := st0) (rc := [[2]]) (by decide +kernel)
+  exact ⟨c', hr, C13_dispatch_client (by decide) hr, hst⟩
+
+/-- `ProcessMessage` on a line of a session with `server = false` (on an invariant state): the
+remote-address stage keeps the flag, and the line is then gated and dispatched as a client line
+(`gateStage`, for which `gateStage_client` / `C13_dispatch_client` apply): no services handler runs. -/
+theorem C13_services_commands_need_link {c c' : Ctx} {e : Entry} {m : IrcMsg} {s : Session}
+    (hp : Pre c e.session) (hn : NI c.st) (hs : AMap.get c.st.sessions e.session = some s) (hsv : s.server = false)
+    (hr : processMessage c e (some m) = .ok c') :
+    ∃ c1 b, addrStage c e s = .ok (c1, b) ∧ (b = true → c' = c1) ∧
+      (b = false → ∃ s1, AMap.get c1.st.sessions e.session = some s1 ∧ s1.server = false ∧
+        (ClientDispatched c1 s1 m (toUpper m.command) c' ∨
+          (s1.loggedIn = false ∧
+            (c' = sendUser c1 s1.id (srv c1 "451" [toUpper m.command, "You have not registered"]) ∨
+             deleteSession (sendUser (sendUser c1 s1.id (srv c1 "451" [toUpper m.command, "You have not registered"])) s1.id
+               ⟨none, "ERROR", ["Closing Link: You have not registered within 10 minutes"]⟩) s1.id = .ok c')))) := by
+  obtain ⟨c1, b, h1, h2, h3⟩ := processMessage_client hp hn hs hsv hr
+  refine ⟨c1, b, h1, h2, fun hb => ?_⟩
+  obtain ⟨s1, hs1, hsv1, hg⟩ := h3 hb
+  exact ⟨s1, hs1, hsv1, gateStage_client hs1 hsv1 hg⟩
+
+/-! ## 5. JOIN of an existing channel -/
+
+/-- JOIN of an existing channel whose admission condition (`joinAllowed`: invitation on `+i` and on
+`+x`, no matching ban, exact key on `+k`) fails: the session does not become a member, nothing
+changes (in particular an invitation is not consumed). -/
+theorem C13_join_refused {c c' : Ctx} {sid : Id} {s : Session} {chn key : String} {ch : Channel}
+    (hs : AMap.get c.st.sessions sid = some s)
+    (hch : AMap.get c.st.channels (chanToLower chn) = some ch)
+    (hno : joinAllowed s ch (chanToLower chn) key = false)
+    (hr : joinOne c sid chn key = .ok c') : Refused c c' sid :=
+  joinOne_refused hs hch hno hr
+
+/-- carol has no invitation for the `+i` channel `#c` -/
+example : ∃ c', joinOne c0 carolId "#c" "" = .ok c' ∧ Refused c0 c' carolId :=
+  ⟨_, rfl, C13_join_refused (c := c0) (sid := carolId) (chn := "#c") (key := "") (s := carol) (ch := chanC)
+    (by decide) (by decide) (by decide) rfl⟩
+
+/-- a session that was not a member of the existing channel and is one after the JOIN satisfied
+the admission condition -/
+theorem C13_join_member_only_if {c c' : Ctx} {sid : Id} {s : Session} {chn key : String} {ch : Channel}
+    (hs : AMap.get c.st.sessions sid = some s)
+    (hch : AMap.get c.st.channels (chanToLower chn) = some ch)
+    (hbefore : memberOf c.st s.nick (chanToLower chn) = none)
+    (hafter : memberOf c'.st s.nick (chanToLower chn) ≠ none)
+    (hr : joinOne c sid chn key = .ok c') : joinAllowed s ch (chanToLower chn) key = true :=
+  joinOne_member_only_if hs hch hbefore hafter hr
+
+namespace Ex
+/-- the context after alice's `INVITE carol #c` -/
+def c1 : Ctx :=
+  match cmdInvite c0 aliceId ⟨none, "INVITE", ["carol", "#c"]⟩ with
+  | .ok c => c
+  | _ => c0
+def carol1 : Session := { carol with invitedTo := ["#c"] }
+end Ex
+/-- carol, invited, joins `#c`: not a member before, a member after, and the condition holds -/
+example : ∃ c', joinOne c1 carolId "#c" "" = .ok c' ∧ joinAllowed carol1 chanC "#c" "" = true :=
+  ⟨_, rfl, C13_join_member_only_if (c := c1) (sid := carolId) (s := carol1) (chn := "#c") (key := "") (ch := chanC)
+    (by decide) (by decide) (by decide) (by decide) rfl⟩
+
+/-- the same for the command `JOIN <chn> [<key>]` with a single channel name -/
+theorem C13_cmdJoin_member_only_if {c c' : Ctx} {sid : Id} {m : IrcMsg} {s : Session} {chn : String} {ch : Channel}
+    (hs : AMap.get c.st.sessions sid = some s) (hp0 : m.params[0]? = some chn) (hc : ',' ∉ chn.toList)
+    (hch : AMap.get c.st.channels (chanToLower chn) = some ch)
+    (hbefore : memberOf c.st s.nick (chanToLower chn) = none)
+    (hafter : memberOf c'.st s.nick (chanToLower chn) ≠ none)
+    (hr : cmdJoin c sid m = .ok c') : joinAllowed s ch (chanToLower chn) (firstJoinKey m) = true :=
+  joinOne_member_only_if hs hch hbefore hafter (cmdJoin_single_ok hp0 hc hr)
+
+example : ∃ c', cmdJoin c1 carolId ⟨none, "JOIN", ["#c"]⟩ = .ok c' ∧
+    joinAllowed carol1 chanC "#c" (firstJoinKey ⟨none, "JOIN", ["#c"]⟩) = true :=
+  ⟨_, rfl, C13_cmdJoin_member_only_if (c := c1) (sid := carolId) (m := ⟨none, "JOIN", ["#c"]⟩) (s := carol1) (chn := "#c")
+    (ch := chanC) (by decide) (by decide) (by decide) (by decide) (by decide) (by decide) rfl⟩
+
+theorem C13_cmdJoin_refused {c c' : Ctx} {sid : Id} {m : IrcMsg} {s : Session} {chn : String} {ch : Channel}
+    (hs : AMap.get c.st.sessions sid = some s) (hp0 : m.params[0]? = some chn) (hc : ',' ∉ chn.toList)
+    (hch : AMap.get c.st.channels (chanToLower chn) = some ch)
+    (hno : joinAllowed s ch (chanToLower chn) (firstJoinKey m) = false)
+    (hr : cmdJoin c sid m = .ok c') : Refused c c' sid :=
+  joinOne_refused hs hch hno (cmdJoin_single_ok hp0 hc hr)
+
+example : ∃ c', cmdJoin c0 carolId ⟨none, "JOIN", ["#c"]⟩ = .ok c' ∧ Refused c0 c' carolId :=
+  ⟨_, rfl, C13_cmdJoin_refused (c := c0) (sid := carolId) (m := ⟨none, "JOIN", ["#c"]⟩) (s := carol) (chn := "#c") (ch := chanC) (by decide) (by decide) (by decide) (by decide)
+    (by decide) rfl⟩
+
+/-- invitations are valid once: an admitted JOIN of a `+i`/`+x` channel removes the invitation
+(also when the session already was a member); operator and server flags are untouched. -/
+theorem C13_join_consumes_invitation {c c' : Ctx} {sid : Id} {s : Session} {chn key : String} {ch : Channel}
+    (hs : AMap.get c.st.sessions sid = some s) (hid : s.id = sid)
+    (hv : isValidChannel chn = true)
+    (hch : AMap.get c.st.channels (chanToLower chn) = some ch)
+    (hyes : joinAllowed s ch (chanToLower chn) key = true)
+    (hr : joinOne c sid chn key = .ok c') :
+    ∃ s', AMap.get c'.st.sessions sid = some s' ∧
+      s'.invitedTo = (if ch.modes.contains 'i' || ch.modes.contains 'x'
+        then s.invitedTo.filter (· ≠ chanToLower chn) else s.invitedTo) ∧
+      s'.operator = s.operator ∧ s'.server = s.server :=
+  joinOne_admitted hs hid hv hch hyes hr
+
+example : ∃ c' s', joinOne c1 carolId "#c" "" = .ok c' ∧ AMap.get c'.st.sessions carolId = some s' ∧ s'.invitedTo = [] := by
+  obtain ⟨s', h1, h2, _⟩ := C13_join_consumes_invitation (c := c1) (sid := carolId) (s := carol1) (chn := "#c") (key := "")
+    (ch := chanC) (c' := _) (by decide) (by decide) (by decide) (by decide) (by decide) rfl
+  exact ⟨_, s', rfl, h1, h2.trans (by decide)⟩
+
+/-- after alice's INVITE carol may join once: she becomes a plain member and the invitation is gone -/
+example : (match cmdInvite c0 aliceId ⟨none, "INVITE", ["carol", "#c"]⟩ with
+    | .ok c1 => (result (cmdJoin c1 carolId ⟨none, "JOIN", ["#c"]⟩)).map
+        (fun r => (memberOf r.1 "carol" "#c", (AMap.get r.1.sessions carolId).map (·.invitedTo)))
+    | _ => none) = some (some { chanop := false }, some []) := by decide
+
+/-! ## 6. history: where chanop flags come from -/
+
+/-- One committed client entry (IRCFromClient) whose actor is not a services link, not an IRC
+operator and not a channel operator of the existing channel `lc`: no member key of `lc` gains the
+chanop flag (`OpsMono st st' lc`).  Hence, for clients, a chanop flag appears only through
+`MODE +o` by a chanop of that channel or by an IRC operator, or through the JOIN that creates the
+channel (a NICK change moves the flag with the nick).  Partial: flags are tracked by member key;
+entries of services links are outside. -/
+theorem C13_chanop_origin_partial {st st' : St} {e : Entry} {out : List Out} {s : Session} {lc : String}
+    (ht : e.type = 2) (hs : AMap.get st.sessions e.session = some s) (hid : s.id = e.session)
+    (hsv : s.server = false) (hno : s.operator = false)
+    (hnop : chanOpOf st s.nick lc = false) (hex : (AMap.get st.channels lc).isSome = true)
+    (hr : applyEntry st e = .ok (st', out)) : OpsMono st st' lc :=
+  applyEntry_client_ops_partial ht hs hid hsv hno hnop hex hr
+
+/-- on states satisfying the invariant sessions are stored under their id (`hid` above) -/
+theorem C13_chanop_origin_partial' {st st' : St} {e : Entry} {out : List Out} {s : Session} {lc : String}
+    (hg : GInv st) (ht : e.type = 2) (hs : AMap.get st.sessions e.session = some s)
+    (hsv : s.server = false) (hno : s.operator = false)
+    (hnop : chanOpOf st s.nick lc = false) (hex : (AMap.get st.channels lc).isSome = true)
+    (hr : applyEntry st e = .ok (st', out)) : OpsMono st st' lc :=
+  applyEntry_client_ops_partial ht hs (hg.inv.sessId _ _ hs).1 hsv hno hnop hex hr
+
+/-- the committed entry "bob: MODE #c +o bob" on `st0` -/
+def Ex.eMode : Entry :=
+  { type := 2, id := 9, session := ⟨2, 0⟩, data := "MODE #c +o bob", unixNano := 0, cmid := 1, rev := 0,
+    remoteAddr := "", cfg := none }
+def Ex.entrySt (r : Res (St × List Out)) : Option St :=
+  match r with
+  | .ok p => some p.1
+  | _ => none
+theorem Ex.entrySt_some {r : Res (St × List Out)} (h : (entrySt r).isSome = true) : ∃ st' out, r = .ok (st', out) := by
+  cases r with
+  | ok p => exact ⟨p.1, p.2, rfl⟩
+  | panic x => simp [entrySt] at h
+  | declined x => simp [entrySt] at h
+theorem Ex.eMode_ok : ∃ st' out, applyEntry st0 eMode = .ok (st', out) :=
+  entrySt_some (by decide +kernel)
+example : ∃ st' out, applyEntry st0 eMode = .ok (st', out) ∧ OpsMono st0 st' "#c" := by
+  obtain ⟨st', out, h⟩ := eMode_ok
+  exact ⟨st', out, h, C13_chanop_origin_partial (s := bob) (by decide) (by decide) (by decide) (by decide) (by decide)
+    (by decide) (by decide) h⟩
+example : (entrySt (applyEntry st0 eMode)).map (fun st => chanOpOf st "bob" "#c") = some false := by decide +kernel
+
+/-- over histories: as long as only unprivileged sessions act (`UnprivHistory lc`), the chanop
+flags of `lc` at the end are among those at the start -/
+theorem C13_chanop_history_partial {lc : String} {st st' : St} {es : List Entry} (h : GInv st) (hw : WfHistory st es)
+    (hu : UnprivHistory lc st es) (hr : runEntries st es = .ok st') : OpsMono st st' lc :=
+  run_ops_partial h hw hu hr
+
+namespace Ex
+def mk (ty id : Nat) (sess : Id) (data : String) : Entry :=
+  { type := ty, id := id, session := sess, data := data, unixNano := 0, cmid := id, rev := 0, remoteAddr := "", cfg := none }
+/-- alice creates `#c` (and so is its operator), bob joins it, carol registers but stays outside -/
+def es0 : List Entry := [
+  mk 0 1 ⟨0, 0⟩ "auth1", mk 2 2 ⟨1, 0⟩ "NICK alice", mk 2 3 ⟨1, 0⟩ "USER a 0 * :Alice", mk 2 4 ⟨1, 0⟩ "JOIN #c",
+  mk 0 5 ⟨0, 0⟩ "auth2", mk 2 6 ⟨5, 0⟩ "NICK bob", mk 2 7 ⟨5, 0⟩ "USER b 0 * :Bob", mk 2 8 ⟨5, 0⟩ "JOIN #c",
+  mk 0 9 ⟨0, 0⟩ "auth3", mk 2 10 ⟨9, 0⟩ "NICK carol", mk 2 11 ⟨9, 0⟩ "USER c 0 * :Carol"]
+def aliceR : Session := { id := ⟨1, 0⟩, auth := "auth1", loggedIn := true, nick := "alice", username := "a", realname := "Alice", channels := ["#c"], lastActivity := 4, lastNonPing := 4, created := 1, svid := "0", lastClientMessageId := 4, ircPrefix := ⟨"alice", "a", "robust/0x1"⟩ }
+def bobR : Session := { id := ⟨5, 0⟩, auth := "auth2", loggedIn := true, nick := "bob", username := "b", realname := "Bob", channels := ["#c"], lastActivity := 8, lastNonPing := 8, created := 5, svid := "0", lastClientMessageId := 8, ircPrefix := ⟨"bob", "b", "robust/0x5"⟩ }
+def carolR : Session := { id := ⟨9, 0⟩, auth := "auth3", loggedIn := true, nick := "carol", username := "c", realname := "Carol", lastActivity := 11, lastNonPing := 11, created := 9, svid := "0", lastClientMessageId := 11, ircPrefix := ⟨"carol", "c", "robust/0x9"⟩ }
+/-- the state reached from the initial state by `es0` (`run0` below) -/
+def stR : St := { sessions := [(⟨1, 0⟩, aliceR), (⟨5, 0⟩, bobR), (⟨9, 0⟩, carolR)], nicks := [("alice", ⟨1, 0⟩), ("bob", ⟨5, 0⟩), ("carol", ⟨9, 0⟩)], channels := [("#c", { name := "#c", nicks := [("alice", { chanop := true }), ("bob", {})], modes := ['n', 't'] })], lastProcessed := ⟨9, 0⟩ }
+/-- bob tries to get at the operator status: MODE +o, KICK, NICK change, TOPIC, PART and re-JOIN -/
+def es1 : List Entry := [
+  mk 2 12 ⟨5, 0⟩ "MODE #c +o bob", mk 2 13 ⟨5, 0⟩ "KICK #c alice", mk 2 14 ⟨5, 0⟩ "NICK robert",
+  mk 2 15 ⟨5, 0⟩ "TOPIC #c :mine", mk 2 16 ⟨5, 0⟩ "PART #c", mk 2 17 ⟨5, 0⟩ "JOIN #c"]
+def stEnd : St := (runOk stR es1).getD {}
+theorem run0 : runOk {} es0 = some stR := by decide +kernel
+theorem wf0 : histB none {} es0 = true := by decide +kernel
+theorem run1 : runOk stR es1 = some stEnd := by decide +kernel
+theorem unpriv1 : histB (some "#c") stR es1 = true := by decide +kernel
+/-- `stR` is reachable, hence satisfies the full invariant -/
+theorem ginvR : GInv stR := run_preserves GInv_init (wf_of_histB wf0) (runOk_some run0)
+end Ex
+
+/-- the hypotheses of `C13_chanop_history_partial` hold for bob's six attempts on the reachable state `stR` … -/
+example : OpsMono stR stEnd "#c" :=
+  C13_chanop_history_partial ginvR (wf_of_histB unpriv1) (unpriv_of_histB unpriv1) (runOk_some run1)
+/-- … and indeed alice is still the only operator at the end (bob, now "robert", re-joined as a plain member) -/
+example : (AMap.get stEnd.channels "#c").map (fun ch => ch.nicks) =
+    some [("alice", { chanop := true }), ("robert", { chanop := false })] := by decide +kernel
+
+/-- NICK: a key that carries the flag afterwards carried it before, or it is the actor's new key
+and the actor's old key carried it (the flag moves with the nick) -/
+theorem C13_nick_moves_chanop_partial {c c' : Ctx} {sid : Id} {m : IrcMsg} {s : Session} {lc : String}
+    (hs : AMap.get c.st.sessions sid = some s) (hr : cmdNick c sid m = .ok c') :
+    ∀ n, opFlagC c'.st.channels lc n = true →
+      opFlagC c.st.channels lc n = true ∨
+      (n = nickToLower (m.params.head?.getD "") ∧ opFlagC c.st.channels lc (nickToLower s.nick) = true) :=
+  cmdNick_ops_partial hs hr
+
+/-- alice (chanop of `#c`) changes her nick: the flag is now under "alicia" -/
+example : (result (cmdNick c0 aliceId ⟨none, "NICK", ["alicia"]⟩)).map
+    (fun r => (chanOpOf r.1 "alicia" "#c", memberOf r.1 "alice" "#c")) = some (true, none) := by decide +kernel
+
+/-- KICK, PART, QUIT, KILL, GLINE, TOPIC, INVITE, AWAY, OPER, USER, PASS, SERVER never set a chanop
+flag, whoever runs them -/
+theorem C13_removal_commands_set_no_chanop :
+    OpsAll cmdKick ∧ OpsAll cmdPart ∧ OpsAll cmdQuit ∧ OpsAll cmdKill ∧ OpsAll cmdGline ∧ OpsAll cmdTopic ∧
+    OpsAll cmdInvite ∧ OpsAll cmdAway ∧ OpsAll cmdOper ∧ OpsAll cmdUser ∧ OpsAll cmdPass ∧ OpsAll cmdServer :=
+  ⟨cmdKick_ops, cmdPart_ops, cmdQuit_ops, cmdKill_ops, cmdGline_ops, cmdTopic_ops, cmdInvite_ops, cmdAway_ops,
+    cmdOper_ops, cmdUser_ops, cmdPass_ops, cmdServer_ops⟩
+
+/-! ## 7. examples on a reachable state (for the theorems that assume the invariant) -/
+
+namespace Ex
+theorem bobR_stored : AMap.get stR.sessions ⟨5, 0⟩ = some bobR := by decide
+def cR : Ctx := { st := stR, msgid := 20 }
+def eSvs : Entry := mk 2 20 ⟨5, 0⟩ "SVSMODE bob +o"
+def mSvs : IrcMsg := ⟨none, "SVSMODE", ["bob", "+o"]⟩
+example : parseMessage eSvs.data = some mSvs := by decide +kernel
+end Ex
+
+/-- bob, a client session of the reachable state, sends the services command `SVSMODE bob +o`:
+`ProcessMessage` treats it as a client line (421 Unknown command), nothing changes -/
+example : ∃ c', processMessage cR eSvs (some mSvs) = .ok c' ∧ c'.st = stR ∧
+    ∃ c1 b, addrStage cR eSvs bobR = .ok (c1, b) ∧ (b = false → ∃ s1, AMap.get c1.st.sessions eSvs.session = some s1 ∧
+      s1.server = false) := by
+  obtain ⟨c', hr, hst⟩ := ok_of_result (r := processMessage cR eSvs (some mSvs)) (st := stR) (rc := [[5]]) (by decide +kernel)
+  obtain ⟨c1, b, h1, _, h3⟩ := C13_services_commands_need_link (c := cR) (e := eSvs) (s := bobR)
+    ⟨ginvR.inv, ginvR.linv, ⟨_, bobR_stored⟩, rfl⟩ ginvR.ni bobR_stored (by decide) hr
+  exact ⟨c', hr, hst, c1, b, h1, fun hb => by obtain ⟨s1, hs1, hsv1, _⟩ := h3 hb; exact ⟨s1, hs1, hsv1⟩⟩
+
+/-- carol is not a member of `#c` in the reachable state: her TOPIC is refused (member-map form) -/
+example : ∃ c', cmdTopic cR ⟨9, 0⟩ ⟨none, "TOPIC", ["#c", "x"]⟩ = .ok c' ∧ Refused cR c' ⟨9, 0⟩ :=
+  ⟨_, rfl, C13_topic_requires_membership' (c := cR) (sid := ⟨9, 0⟩) (m := ⟨none, "TOPIC", ["#c", "x"]⟩) (s := carolR)
+    (chn := "#c") ginvR.inv.toWInv (by decide) (by decide) (by decide) (by decide) (by decide) rfl⟩
+
+/-- `C13_chanop_origin_partial'` on the reachable state: bob's `MODE #c +o bob` as a committed entry -/
+example : ∀ st' out, applyEntry stR (mk 2 12 ⟨5, 0⟩ "MODE #c +o bob") = .ok (st', out) → OpsMono stR st' "#c" :=
+  fun _ _ h => C13_chanop_origin_partial' ginvR rfl bobR_stored (by decide) (by decide) (by decide) (by decide) h
+
 end Robust.Props.C13
